@@ -211,3 +211,273 @@ Proof.
     pose proof (ll_fill_loop_spec l (lnodes l) [] eq_refl) as H.
     cbn [length app] in H. rewrite zlen_nil in H. rewrite H. reflexivity.
 Qed.
+
+Lemma ll_step_err_id : forall l o e, snd (ll_step l o) = Err e -> fst (ll_step l o) = l.
+Proof.
+  intros l o e H. destruct o as [i|xs|i x|i x|i| | |stop| ]; cbn [ll_step fst snd] in *;
+    try reflexivity; try discriminate.
+  - unfold ll_add in *. destruct ((i <? 0) || (i >? llen l)); [reflexivity|].
+    destruct (i =? llen l); [discriminate|].
+    destruct (node_index l (find_node l i)); cbn [fst snd] in *; try reflexivity; discriminate.
+  - unfold ll_set in *. destruct (negb (ll_check_index l i)); [reflexivity|].
+    destruct (node_index l (find_node l i)); cbn [fst snd] in *; try reflexivity; discriminate.
+  - unfold ll_delete in *. destruct (negb (ll_check_index l i)); [reflexivity|].
+    destruct (node_index l (find_node l i)) as [k| |]; cbn [fst snd] in *; try reflexivity.
+    destruct (nth_opt (lnodes l) k); cbn [fst snd] in *; try reflexivity; discriminate.
+Qed.
+
+(* ====================================================================== *)
+(* CopyOnWriteArrayList                                                    *)
+(* ====================================================================== *)
+Lemma cow_del_after : forall vs acc i index ret,
+  index < i ->
+  cow_del_loop vs i index (zlen acc) ret (acc ++ zeros (length vs)) = Ok (ret, acc ++ vs).
+Proof.
+  induction vs as [|v t IH]; intros acc i index ret H; cbn [cow_del_loop length zeros].
+  - reflexivity.
+  - replace (i =? index) with false by lia.
+    rewrite arr_set_mid by reflexivity. cbn [obind].
+    replace (zlen acc + 1) with (zlen (acc ++ [v])) by zl.
+    replace (acc ++ v :: zeros (length t)) with ((acc ++ [v]) ++ zeros (length t))
+      by (rewrite <- app_assoc; reflexivity).
+    rewrite IH by lia. rewrite <- app_assoc. reflexivity.
+Qed.
+
+Lemma cow_del_before : forall p acc i index ret x q,
+  i + zlen p = index ->
+  cow_del_loop (p ++ x :: q) i index (zlen acc) ret (acc ++ zeros (length p + length q))
+    = Ok (x, acc ++ p ++ q).
+Proof.
+  induction p as [|v p IH]; intros acc i index ret x q H;
+    cbn [app cow_del_loop length Nat.add zeros].
+  - replace (i =? index) with true by (rewrite zlen_nil in H; lia).
+    apply cow_del_after. rewrite zlen_nil in H. lia.
+  - replace (i =? index) with false by (rewrite zlen_cons in H; pose proof (zlen_nonneg _ p); lia).
+    rewrite arr_set_mid by reflexivity. cbn [obind].
+    replace (zlen acc + 1) with (zlen (acc ++ [v])) by zl.
+    replace (acc ++ v :: zeros (length p + length q))
+      with ((acc ++ [v]) ++ zeros (length p + length q))
+      by (rewrite <- app_assoc; reflexivity).
+    rewrite IH by (rewrite zlen_cons in H; lia).
+    rewrite <- app_assoc. reflexivity.
+Qed.
+
+Lemma cow_step_refines : forall a o c,
+  sv (fst (cow_step a o c)) = fst (seq_step (sv a) o) /\
+  canon (snd (cow_step a o c)) = snd (seq_step (sv a) o).
+Proof.
+  intros a o c. destruct o as [i|xs|i x|i x|i| | |stop| ]; cbn [cow_step seq_step].
+  - (* Get *)
+    unfold cow_get. cbv zeta. destruct (in_idx i (zlen (sv a))) eqn:E; cbn [fst snd].
+    + split; [reflexivity|].
+      replace ((i <? 0) || (i >=? zlen (sv a))) with false by (unfold in_idx in E; lia).
+      destruct (split_mid_z (sv a) i) as [p [y [q [Hs [Hp Hp']]]]]; [unfold in_idx in E; lia|].
+      rewrite Hs, <- Hp', <- Hp. rewrite arr_get_mid by reflexivity.
+      rewrite nth_d_mid. reflexivity.
+    + split; [reflexivity|].
+      replace ((i <? 0) || (i >=? zlen (sv a))) with true by (unfold in_idx in E; lia).
+      reflexivity.
+  - (* Append *)
+    unfold cow_append. cbv zeta.
+    rewrite go_make_ok by (pose proof (zlen_nonneg _ (sv a)); pose proof (zlen_nonneg _ xs); lia).
+    cbn [sv sc]. rewrite to_nat_zlen, go_copy_fresh. split; reflexivity.
+  - (* Add *)
+    unfold cow_add. cbv zeta.
+    rewrite go_make_ok by (pose proof (zlen_nonneg _ (sv a)); lia).
+    cbn [sv sc]. rewrite to_nat_zlen, go_copy_fresh.
+    destruct ((0 <=? i) && (i <=? zlen (sv a))) eqn:E.
+    + rewrite slice_add_ok by (cbn [sv]; lia). split; reflexivity.
+    + rewrite slice_add_err by (cbn [sv]; lia). split; reflexivity.
+  - (* Set *)
+    unfold cow_set. cbv zeta. destruct (in_idx i (zlen (sv a))) eqn:E.
+    + replace ((i >=? zlen (sv a)) || (i <? 0)) with false by (unfold in_idx in E; lia).
+      rewrite go_make_ok by (pose proof (zlen_nonneg _ (sv a)); lia).
+      cbn [sv sc]. rewrite to_nat_zlen, go_copy_fresh.
+      destruct (split_mid_z (sv a) i) as [p [y [q [Hs [Hp Hp']]]]]; [unfold in_idx in E; lia|].
+      rewrite Hs, <- Hp', <- Hp. rewrite arr_set_mid by reflexivity.
+      rewrite set_nth_mid. cbn [fst snd sv canon]. split; reflexivity.
+    + replace ((i >=? zlen (sv a)) || (i <? 0)) with true by (unfold in_idx in E; lia).
+      split; reflexivity.
+  - (* Delete *)
+    unfold cow_delete. cbv zeta. destruct (in_idx i (zlen (sv a))) eqn:E.
+    + replace ((i >=? zlen (sv a)) || (i <? 0)) with false by (unfold in_idx in E; lia).
+      rewrite go_make_ok by (unfold in_idx in E; lia).
+      cbn [sv sc].
+      destruct (split_mid_z (sv a) i) as [p [y [q [Hs [Hp Hp']]]]]; [unfold in_idx in E; lia|].
+      rewrite Hs, <- Hp'.
+      replace (Z.to_nat (zlen (p ++ y :: q) - 1)) with (length p + length q)%nat
+        by (unfold zlen; rewrite app_length; cbn [length]; lia).
+      pose proof (cow_del_before p [] 0 i 0 y q) as H.
+      rewrite zlen_nil in H. cbn [app] in H. rewrite H by lia.
+      rewrite nth_d_mid, remove_at_mid. cbn [fst snd sv canon]. split; reflexivity.
+    + replace ((i >=? zlen (sv a)) || (i <? 0)) with true by (unfold in_idx in E; lia).
+      split; reflexivity.
+  - split; reflexivity.
+  - split; reflexivity.
+  - cbn [fst snd canon]. split; [reflexivity|].
+    pose proof (range_loop_seq (sv a) stop) as H. cbv zeta in H. rewrite H. reflexivity.
+  - cbn [fst snd]. rewrite as_slice_of_spec. split; reflexivity.
+Qed.
+
+Lemma cow_step_err_id : forall a o c e, snd (cow_step a o c) = Err e -> fst (cow_step a o c) = a.
+Proof.
+  intros a o c e H. destruct o as [i|xs|i x|i x|i| | |stop| ]; cbn [cow_step fst snd] in *;
+    try reflexivity; try discriminate.
+  - unfold cow_append in *. cbv zeta in *.
+    destruct (go_make (zlen (sv a)) (zlen (sv a) + zlen xs)); cbn [fst snd] in *;
+      try reflexivity; discriminate.
+  - unfold cow_add in *. cbv zeta in *.
+    destruct (go_make (zlen (sv a)) (zlen (sv a) + 1)) as [m| |]; cbn [fst snd] in *;
+      try reflexivity.
+    destruct (slice_add _ x i c); cbn [fst snd] in *; try reflexivity; discriminate.
+  - unfold cow_set in *. cbv zeta in *.
+    destruct ((i >=? zlen (sv a)) || (i <? 0)); [reflexivity|].
+    destruct (go_make (zlen (sv a)) (zlen (sv a))) as [m| |]; cbn [fst snd] in *;
+      try reflexivity.
+    destruct (arr_set _ i x); cbn [fst snd] in *; try reflexivity; discriminate.
+  - unfold cow_delete in *. cbv zeta in *.
+    destruct ((i >=? zlen (sv a)) || (i <? 0)); [reflexivity|].
+    destruct (go_make (zlen (sv a) - 1) (zlen (sv a) - 1)) as [m| |]; cbn [fst snd] in *;
+      try reflexivity.
+    destruct (cow_del_loop (sv a) 0 i 0 0 (sv m)) as [[ret ni]| |]; cbn [fst snd] in *;
+      try reflexivity; discriminate.
+Qed.
+
+(* ====================================================================== *)
+(* All four implementations (ConcurrentList delegates)                     *)
+(* ====================================================================== *)
+Lemma lstep_refines : forall s o c, wf s ->
+  contents (fst (lstep s o c)) = fst (seq_step (contents s) o) /\
+  canon (snd (lstep s o c)) = snd (seq_step (contents s) o) /\
+  wf (fst (lstep s o c)).
+Proof.
+  induction s as [a|l|a|s IH]; intros o c Hwf; cbn [lstep contents wf] in *.
+  - pose proof (al_step_refines a o c) as [H1 H2].
+    destruct (al_step a o c) as [a' r]. cbn [fst snd contents wf] in *. tauto.
+  - pose proof (ll_step_refines l o Hwf) as [H1 [H2 H3]].
+    destruct (ll_step l o) as [l' r]. cbn [fst snd contents wf] in *. tauto.
+  - pose proof (cow_step_refines a o c) as [H1 H2].
+    destruct (cow_step a o c) as [a' r]. cbn [fst snd contents wf] in *. tauto.
+  - pose proof (IH o c Hwf) as [H1 [H2 H3]].
+    destruct (lstep s o c) as [s' r]. cbn [fst snd contents wf] in *. tauto.
+Qed.
+
+Lemma lstep_err_id : forall s o c e, snd (lstep s o c) = Err e -> fst (lstep s o c) = s.
+Proof.
+  induction s as [a|l|a|s IH]; intros o c e H; cbn [lstep] in *.
+  - pose proof (al_step_err_id a o c e) as Hid.
+    destruct (al_step a o c) as [a' r]. cbn [fst snd] in *. now rewrite Hid.
+  - pose proof (ll_step_err_id l o e) as Hid.
+    destruct (ll_step l o) as [l' r]. cbn [fst snd] in *. now rewrite Hid.
+  - pose proof (cow_step_err_id a o c e) as Hid.
+    destruct (cow_step a o c) as [a' r]. cbn [fst snd] in *. now rewrite Hid.
+  - pose proof (IH o c e) as Hid.
+    destruct (lstep s o c) as [s' r]. cbn [fst snd] in *. now rewrite Hid.
+Qed.
+
+Lemma wf_linit : forall im c0, wf (linit im c0).
+Proof. induction im as [| | |im IH]; intros c0; cbn [linit wf]; try exact I; [reflexivity | apply IH]. Qed.
+
+Lemma contents_linit : forall im c0, contents (linit im c0) = [].
+Proof. induction im as [| | |im IH]; intros c0; cbn [linit contents]; try reflexivity; apply IH. Qed.
+
+(* ---------- histories ---------- *)
+Lemma lrun_refines : forall h s, wf s -> map canon (lrun s h) = seq_run (contents s) h.
+Proof.
+  induction h as [|[o c] t IH]; intros s Hwf; cbn [lrun seq_run map].
+  - reflexivity.
+  - pose proof (lstep_refines s o c Hwf) as [H1 [H2 H3]].
+    destruct (lstep s o c) as [s' r]. destruct (seq_step (contents s) o) as [l' r'].
+    cbn [fst snd] in *. cbn [map]. rewrite H2, IH by exact H3. rewrite H1. reflexivity.
+Qed.
+
+Lemma lfinal_refines : forall h s, wf s ->
+  wf (lfinal s h) /\ contents (lfinal s h) = seq_final (contents s) h.
+Proof.
+  induction h as [|[o c] t IH]; intros s Hwf; cbn [lfinal seq_final].
+  - split; [exact Hwf | reflexivity].
+  - pose proof (lstep_refines s o c Hwf) as [H1 [H2 H3]].
+    destruct (IH (fst (lstep s o c)) H3) as [H4 H5].
+    split; [exact H4|]. rewrite H5, H1. reflexivity.
+Qed.
+
+Lemma seq_step_no_panic : forall l o, snd (seq_step l o) <> Panic.
+Proof.
+  intros l o. destruct o as [i|xs|i x|i x|i| | |stop| ]; cbn [seq_step];
+    repeat match goal with |- context [if ?b then _ else _] => destruct b end;
+    cbn [snd]; discriminate.
+Qed.
+
+Lemma canon_panic : forall r, canon r = Panic -> r = Panic.
+Proof. intros [[]| |]; cbn [canon]; intros H; try discriminate; reflexivity. Qed.
+
+Lemma lstep_no_panic : forall s o c, wf s -> snd (lstep s o c) <> Panic.
+Proof.
+  intros s o c Hwf Hp. pose proof (lstep_refines s o c Hwf) as [_ [H2 _]].
+  rewrite Hp in H2. cbn [canon] in H2. symmetry in H2. exact (seq_step_no_panic _ _ H2).
+Qed.
+
+Lemma lrun_no_panic : forall h s, wf s -> Forall (fun r => r <> Panic) (lrun s h).
+Proof.
+  induction h as [|[o c] t IH]; intros s Hwf; cbn [lrun].
+  - constructor.
+  - pose proof (lstep_refines s o c Hwf) as [_ [_ H3]].
+    pose proof (lstep_no_panic s o c Hwf) as Hn.
+    destruct (lstep s o c) as [s' r]. cbn [fst snd] in *.
+    constructor; [exact Hn | apply IH; exact H3].
+Qed.
+
+(* errors are index errors, and occur exactly when the index is outside the permitted range *)
+Lemma lstep_error_iff : forall s o c, wf s ->
+  (index_ok (zlen (contents s)) o = false -> snd (lstep s o c) = Err EIndex) /\
+  (index_ok (zlen (contents s)) o = true -> exists v, snd (lstep s o c) = Ok v).
+Proof.
+  intros s o c Hwf. pose proof (lstep_refines s o c Hwf) as [_ [H2 _]].
+  assert (Hc : forall r r', canon r = r' -> (r' = Err EIndex -> r = Err EIndex) /\
+                            ((exists v, r' = Ok v) -> exists v, r = Ok v)).
+  { intros r r' H. subst r'. split.
+    - destruct r as [[]| |]; cbn [canon]; intros H; try discriminate; exact H.
+    - intros [v Hv]. destruct r as [w| |]; [exists w; reflexivity | |];
+        cbn [canon] in Hv; discriminate. }
+  destruct (Hc _ _ H2) as [Hc1 Hc2]. clear Hc.
+  split; intros Hi.
+  - apply Hc1. destruct o as [i|xs|i x|i x|i| | |stop| ]; cbn [index_ok seq_step] in *;
+      try discriminate; rewrite Hi; reflexivity.
+  - apply Hc2. destruct o as [i|xs|i x|i x|i| | |stop| ]; cbn [index_ok seq_step] in *;
+      try rewrite Hi; cbn [snd]; eexists; reflexivity.
+Qed.
+
+(* AsSlice: non-nil, equal to the contents, and the list itself is untouched *)
+Lemma canon_slice : forall r b l, canon r = Ok (OSlice b l) -> r = Ok (OSlice b l).
+Proof.
+  intros r b0 l0 H. destruct r as [w|e|]; [destruct w| |]; cbn [canon] in H;
+    try discriminate; exact H.
+Qed.
+
+Lemma as_slice_fresh_lemma : forall s c, wf s ->
+  lstep s OpAsSlice c = (s, Ok (OSlice false (contents s))).
+Proof.
+  induction s as [a|l|a|s IH]; intros c Hwf; cbn [lstep contents wf] in *.
+  - cbn [al_step]. rewrite as_slice_of_spec. reflexivity.
+  - pose proof (ll_step_refines l OpAsSlice Hwf) as [_ [H2 _]].
+    cbn [ll_step seq_step snd] in *. apply canon_slice in H2. rewrite H2. reflexivity.
+  - cbn [cow_step]. rewrite as_slice_of_spec. reflexivity.
+  - rewrite IH by exact Hwf. reflexivity.
+Qed.
+
+(* ArrayList: len <= cap along every history, for every capacity oracle *)
+Lemma len_le_cap_lemma : forall h a,
+  zlen (sv a) <= sc a ->
+  exists a', lfinal (SArr a) h = SArr a' /\ zlen (sv a') <= sc a'.
+Proof.
+  induction h as [|[o c] t IH]; intros a Hinv; cbn [lfinal lstep].
+  - exists a. split; [reflexivity | exact Hinv].
+  - pose proof (al_step_inv a o c Hinv) as H.
+    destruct (al_step a o c) as [a' r]. cbn [fst] in *. apply IH. exact H.
+Qed.
+
+Lemma shrink_preserves_contents_lemma : forall s o,
+  exists s', shrink s o = Ok s' /\ sv s' = sv s.
+Proof.
+  intros s o. destruct (shrink_ok s o) as [s' [H1 [H2 _]]]. exists s'. split; assumption.
+Qed.
